@@ -60,6 +60,9 @@ type Party struct {
 	randSeen int
 	// Mute: events of this party are not written to the trace (attacker-run endpoints)
 	Mute bool
+	// NoKeys: the conversation has no long-term key; what it then does is not specified (its calls
+	// are adopted without comparison), only that nothing crashes and the peer stays conformant
+	NoKeys bool
 	// SMPTerm is the secret term the party bound in its current SMP run:
 	// [initiator, responder, session pair..., secret id]
 	SMPTerm []interface{}
@@ -501,7 +504,7 @@ func (w *World) record(ev M, p *Party, cr callResult, out []M, err error) M {
 		}
 		p.randSeen++
 	}
-	ev["rf"] = rf
+	ev["rf"] = rf || p.NoKeys
 	ev["ms"] = int(cr.ms)
 	ev["allock"] = int(cr.alloc / 1024)
 	ev["inlen"] = w.lastInLen
